@@ -344,7 +344,7 @@ def run(ctx: Ctx) -> None:
     bound_rule(ctx)
     helper_rule(ctx)
     lane_rule(ctx, "R03.lane")
-    sibling_rule(ctx, "R03.sib")
+    sibling_rule(ctx, "R03.sib", mode="data")
     alloc_rule(ctx, "R03.alloc")
     addr_rule(ctx)
     cfg_rule(ctx)
